@@ -150,7 +150,7 @@ theorem unravel_unit : ∀ (n d : Nat) (m i : Int), d < n → 0 ≤ i → i < m 
       Int.ediv_eq_zero_of_lt h0 h1, Int.emod_eq_of_lt h0 h1, unravel_unit n d m i (by omega) h0 h1]
 
 theorem affine_zeros_ones : ∀ (l : Idx), affine l (uniform l.length 0) (uniform l.length 1) = l
-  | [] => by simp [uniform, affine]
+  | [] => by simp [affine]
   | x :: xs => by simp [uniform_succ, affine_zeros_ones xs]
 
 theorem affine_unit : ∀ (loc : Idx) (d : Nat) (start i step : Int), loc[d]? = some start →
